@@ -74,5 +74,5 @@ import Spydr.Eblif.FragCheck
 #print axioms Spydr.Eblif.eblif_self_contained_text
 #print axioms Spydr.Eblif.eblif_undeclared_leaf_text
 #print axioms Spydr.Eblif.eblif_onNet_exact_text
-#print axioms Spydr.Eblif.leaf_port_shrinks
+#print axioms Spydr.Eblif.leaf_port_kept
 #print axioms Spydr.Eblif.eblif_roundtrip_leaf_ports
